@@ -191,6 +191,8 @@ class C09(vlib.Driver):
                     b = rng.randint(1, size)
                     ops.append(["sample", rng.sample(range(size), b)])
             cases.append({"kind": "multi", "obs": okind, "cap": cap, "agents": nag, "ops": ops, "korder": i % 3})
+            if i % 2:
+                cases[-1]["mixed"] = True      # fields whose dtype differs between transitions (seeded change C09-u2)
         return cases
 
     # ---------- implementation
@@ -248,8 +250,18 @@ class C09(vlib.Driver):
 
     FIELDS = ["state", "action", "reward", "next_state", "done"]
 
-    def ma_value(self, okind, f, tagf):
-        """value of one agent for field f, tagf(member) -> per-env list of tags"""
+    def ma_value(self, okind, f, tagf, sc=1):
+        """value of one agent for field f, tagf(member) -> per-env list of tags.  With sc=2 (case flag `mixed`) the
+        stored value is tag/2: observation tags are even (same float32 values as before), the other fields carry an
+        odd tag on every second transition, so that the SAME field holds integers (int64 array / Python int) on some
+        transitions and halves (float64 array / Python float) on others -- stacking must promote, not truncate."""
+        if sc != 1:
+            if f not in ("action", "reward"):
+                return self.ma_value(okind, f, lambda m: [t // sc for t in tagf(m)])
+            ts = tagf(0)
+            if all(t % sc == 0 for t in ts):
+                return np.array([t // sc for t in ts], dtype=np.int64)
+            return np.array([t / sc for t in ts], dtype=np.float64)
         if f in ("state", "next_state") and okind == "dict":
             return {"p": np.array([[t, t] for t in tagf(0)], dtype=np.float32), "q": np.array(tagf(1), dtype=np.float32)}
         if f in ("state", "next_state") and okind == "tuple":
@@ -257,6 +269,15 @@ class C09(vlib.Driver):
         if f in ("state", "next_state"):
             return np.array([[t, t, t] for t in tagf(0)], dtype=np.float32)
         return np.array(tagf(0), dtype=np.float32)
+
+    @classmethod
+    def ma_tag(cls, case, kk, fi, a, m):
+        """tag of transition kk, field fi, agent a, member m (what the harness stores and what the oracle expects)"""
+        base = kk % 2 if cls.FIELDS[fi] == "done" else 1 + (((kk * 5 + fi) * 3 + a) * 2 + m)
+        if not case.get("mixed"):
+            return base
+        # observations stay float32; `done` is cast to uint8 by the buffer by design: only action / reward vary in dtype
+        return 2 * base + ((kk + a) % 2 if cls.FIELDS[fi] in ("action", "reward") else 0)
 
     @staticmethod
     def reorder(d, case, fi):
@@ -277,13 +298,13 @@ class C09(vlib.Driver):
         k = 0
         trace = []
 
+        sc = 2 if case.get("mixed") else 1
+
         def tag(kk, fi, a, m):
-            if self.FIELDS[fi] == "done":
-                return kk % 2
-            return 1 + (((kk * 5 + fi) * 3 + a) * 2 + m)
+            return self.ma_tag(case, kk, fi, a, m)
 
         def dec_leaf(x):
-            x = np.asarray(x, dtype=np.float64).reshape(-1)
+            x = np.asarray(x, dtype=np.float64).reshape(-1) * sc
             return int(x[0]) if np.all(x == x[0]) and float(x[0]).is_integer() and 0 <= x[0] < BAD else BAD
 
         def dec_val(v):
@@ -304,7 +325,7 @@ class C09(vlib.Driver):
                     for fi, f in enumerate(self.FIELDS):
                         d, md = {}, []
                         for a, an in enumerate(agents):
-                            d[an] = self.ma_value(okind, f, lambda m: [tag(kk, fi, a, m) for kk in ks])
+                            d[an] = self.ma_value(okind, f, lambda m: [tag(kk, fi, a, m) for kk in ks], sc)
                             nm = 2 if (f in ("state", "next_state") and okind in ("dict", "tuple")) else 1
                             md.append([a, [[tag(kk, fi, a, m) for kk in ks] for m in range(nm)], nm > 1 or False])
                         args.append(self.reorder(d, case, fi)); margs.append(md)
@@ -316,9 +337,11 @@ class C09(vlib.Driver):
                     for fi, f in enumerate(self.FIELDS):
                         d, md = {}, []
                         for a, an in enumerate(agents):
-                            v = self.ma_value(okind, f, lambda m: [tag(kk, fi, a, m)])
+                            v = self.ma_value(okind, f, lambda m: [tag(kk, fi, a, m)], sc)
                             # un-vectorised: drop the env axis
-                            if isinstance(v, dict):
+                            if sc != 1 and f in ("action", "reward"):
+                                v = v[0].item()          # a plain Python int or float, as a caller's reward would be
+                            elif isinstance(v, dict):
                                 v = {x: y[0] for x, y in v.items()}
                             elif isinstance(v, tuple):
                                 v = tuple(y[0] for y in v)
@@ -486,7 +509,7 @@ class C09(vlib.Driver):
                         for a, v in f:
                             vals = v["M"] if "M" in v else [v["L"]]
                             for m, x in enumerate(vals):
-                                exp = kk % 2 if self.FIELDS[fi] == "done" else 1 + (((kk * 5 + fi) * 3 + a) * 2 + m)
+                                exp = self.ma_tag(case, kk, fi, a, m)
                                 if x != exp:
                                     out.append(Violation("contents", "multi:contents", f"op {oi}: experience {j} field {self.FIELDS[fi]} agent {a} member {m} = {x}, expected {exp}"))
                                     return out
@@ -498,7 +521,7 @@ class C09(vlib.Driver):
                                 kk = first + idx[j]
                                 xs = v["M"] if "M" in v else [v["L"]]
                                 for m, x in enumerate(xs):
-                                    exp = kk % 2 if self.FIELDS[fi] == "done" else 1 + (((kk * 5 + fi) * 3 + a) * 2 + m)
+                                    exp = self.ma_tag(case, kk, fi, a, m)
                                     if x != exp:
                                         out.append(Violation("sample-rows", "multi:sample-rows", f"op {oi}: sample {j} field {self.FIELDS[fi]} agent {a} = {x}, expected {exp}"))
                                         return out
@@ -531,6 +554,7 @@ class C09(vlib.Driver):
         labs = [f"kind={case['kind']}", f"obs={case['obs']}", f"cap={case['cap'] if case['cap'] <= 8 else '>8'}"]
         if case["kind"] == "multi":
             labs.append(f"caller-dict-order={['agent_ids', 'reversed', 'rotated-per-field'][case.get('korder', 0)]}")
+            labs.append("field-dtypes=" + ("mixed-int-and-float-per-transition" if case.get("mixed") else "uniform-float32"))
         for op in case["ops"]:
             labs.append(f"op={case['kind']}:{op[0]}")
         if self.nontrivial(case, obs):
